@@ -326,6 +326,37 @@ TYPE_VALUE_FORMS = ['a', 'a b', '== 1', 'is-empty', 'type file', 'contents ~ a',
 ACTOR_FORMS = [('', ''), ('', '% true'), ('% /venv/bin/python', 'pass'), ('% /venv/bin/python', 'existing-source-file.py')]
 
 
+# The optional instruction description (back ticks) in front of an instruction, as documented: on the same line, tight, and
+# on earlier lines followed by blank and comment lines.
+DESCRIPTION_FORMS = [('`description` NAME on one line', '`c20 d` %s'),
+                     ('`description`NAME without space', '`c20 d`%s'),
+                     ('`description` over two lines, blank line, comment line, indented NAME', '   `c20\nd`  \n\n# c\n   %s')]
+
+
+def described_modes(live, kind, section, names):
+    """For each description form: which of `names` the section accepts when the name is preceded by a description
+    (invented-name oracle with the same description).  ([(label, probed, accepted)], {(label, name): file text})"""
+    out, files = [], {}
+    run = live.run_case_text if kind == 'case' else live.run_suite_text
+    for label, form in DESCRIPTION_FORMS:
+        label = '%s [%s], %s' % ('case' if kind == 'case' else 'suite', section, label)
+        text = '[%s]\n%s\n' % (section, form)
+        try:
+            orc = BogusOracle(lambda n: run(text % n), label)
+        except BogusAccepted:
+            continue
+        probed = [n for n in names if orc.accepted(n) is not None and not directive_recognised(live, n)]
+        out.append((label, probed, [n for n in probed if orc.accepted(n)]))
+        for n in probed:
+            files[(label, n)] = text % n
+    return out, files
+
+
+def _names_and_some_perturbed(accepted, documented):
+    names = list(accepted) + [n for n in documented if n not in accepted]
+    return names + [n + 'x' for n in names[:3]]
+
+
 def _passes(r):
     return r.exception is None and r.exit_code == 0
 
@@ -465,6 +496,10 @@ def build_inventory(live):
                 uses[n] = t
         e['uses'] = uses
         e['modes'] = modes_of_complete_uses(live, uses)
+        e['mode_files'] = {}
+        if pn in prog_dicts or has_instr:
+            dm, e['mode_files'] = described_modes(live, 'case', pn, _names_and_some_perturbed(e['accepted'], e['help_struct']))
+            e['modes'] += dm
         inv.phases.append(e)
 
     # ---- suite sections ---------------------------------------------------------------------
@@ -483,6 +518,13 @@ def build_inventory(live):
         acc = None if e['is_file_list'] else drive('suite', sn)
         e['takes_names'] = acc is not None
         e['accepted'] = acc or []
+        e['modes'], e['mode_files'] = [], {}
+        if acc is not None:
+            documented = list(e['help_struct'])
+            for p in inv.phases:
+                if p['name'] in corr:
+                    documented += [n for n in p['help_struct'] if n not in documented]
+            e['modes'], e['mode_files'] = described_modes(live, 'suite', sn, _names_and_some_perturbed(e['accepted'], documented))
         inv.suite_sections.append(e)
 
     # ---- entities ---------------------------------------------------------------------------
@@ -813,9 +855,9 @@ def inventory_to_coq(inv):
     ss = []
     for s in inv.suite_sections:
         ss.append('  {| si_name := %s; si_takes_names := %s; si_own_dict := %s; si_corresponds := %s;\n     si_accepted := %s;\n'
-                  '     si_has_help_instr := %s; si_help_struct := %s; si_help_keys := %s |}'
+                  '     si_has_help_instr := %s; si_help_struct := %s; si_help_keys := %s;\n     si_modes := %s |}'
                   % (cs(s['name']), cbool(s['takes_names']), cpairs(s['own_dict']), csl(s['corresponds']), csl(s['accepted']),
-                     cbool(s['has_help_instr']), csl(s['help_struct']), csl(s['help_keys'])))
+                     cbool(s['has_help_instr']), csl(s['help_struct']), csl(s['help_keys']), cmodes(s['modes'])))
     L.append('Definition live_suite_sections : list suite_inv := [\n%s\n].' % ';\n'.join(ss))
     es = []
     for e in inv.entities:
@@ -1198,8 +1240,21 @@ def _run(ctx, res, live, sizes=None):
             for n in probed:
                 add('(CModeInstr %s %s %s %s)' % (cs(mode), cs(p['name']), cs(n), cbool(n in acc)),
                     {'kind': 'mode-instruction', 'way_of_running': mode, 'section': p['name'], 'name': n,
-                     'accepted_by_program': n in acc, 'listed_by_help': n in p['help_struct'], 'case_file': p['uses'].get(n)},
+                     'accepted_by_program': n in acc, 'listed_by_help': n in p['help_struct'],
+                     'case_file': p['mode_files'].get((mode, n)) or p['uses'].get(n)},
                     ('mode', mode, p['name'], n))
+    for s in inv.suite_sections:
+        documented = list(s['help_struct'])
+        for p in inv.phases:
+            if p['name'] in s['corresponds']:
+                documented += p['help_struct']
+        for mode, probed, acc in s['modes']:
+            for n in probed:
+                add('(CModeSuite %s %s %s %s)' % (cs(mode), cs(s['name']), cs(n), cbool(n in acc)),
+                    {'kind': 'mode-suite', 'way_of_running': mode, 'section': s['name'], 'name': n,
+                     'accepted_by_program': n in acc, 'listed_by_help': n in documented,
+                     'suite_file': s['mode_files'].get((mode, n)), 'command': 'exactly suite FILE'},
+                    ('mode-suite', mode, s['name'], n))
     for e in inv.entities:
         for mode, probed, acc in e['modes']:
             for n in probed:
@@ -1250,6 +1305,10 @@ def _explain(js):
                 '(expected: all three equal)'
                 % (js['type'], js['name'], js['accepted_by_program'], js['listed_by_help'], js['type'],
                    js['displayed_by_exactly_help_TYPE']))
+    if k == 'mode-suite':
+        return ('suite section [%s], instruction %r: the help documents it for this section = %r, but written as in %r '
+                '(`exactly suite FILE`) the program accepts it = %r; the bare name is judged separately'
+                % (js['section'], js['name'], js['listed_by_help'], js['suite_file'], js['accepted_by_program']))
     if k in ('mode-instruction', 'mode-entity'):
         return ('%s %r: `exactly help` lists it = %r, but run as `%s` the program accepts it = %r (stand-alone `exactly CASE` '
                 'accepts the same case file: %r)'
@@ -1298,6 +1357,9 @@ def replay(ctx, payload):
             vals, raw = common.coq_eval_terms('C20', ['Model.Help'], ['lookup (%s)%%string (%s)%%string'
                                                                       % (cs(case['pattern']), csl(case['keys']))], tag='replay')
             print('model: %s' % (vals or raw[-300:]))
+        elif k == 'mode-suite':
+            r = live.run_suite_text(case['suite_file'])
+            print('exactly suite FILE: exit %r  %s' % (r.exit_code, ' '.join((r.out + ' ' + r.err).split())[-200:]))
         elif k in ('mode-instruction', 'mode-entity'):
             for mode in Live.MODES:
                 r = live.run_case_text_in_mode(mode, case['case_file'])
